@@ -86,6 +86,11 @@ def C1 (ph : Ph) : Prop := ∀ v ∈ ph.viols, v.prop ≠ 1
 def C3 (ph : Ph) : Prop := ∀ v ∈ ph.viols, v.prop ≠ 3
 def C123 (ph : Ph) : Prop := ∀ v ∈ ph.viols, v.prop ≠ 1 ∧ v.prop ≠ 2 ∧ v.prop ≠ 3
 
+@[simp] theorem Ph.sinkPh_flag (ph : Ph) (v : Viol) (k : Nat) : (ph.flag v).sinkPh k = ph.sinkPh k := rfl
+theorem C1_flag (ph : Ph) (v : Viol) : C1 (ph.flag v) ↔ v.prop ≠ 1 ∧ C1 ph := by simp [C1]
+theorem C3_flag (ph : Ph) (v : Viol) : C3 (ph.flag v) ↔ v.prop ≠ 3 ∧ C3 ph := by simp [C3]
+theorem C123_flag (ph : Ph) (v : Viol) : C123 (ph.flag v) ↔ (v.prop ≠ 1 ∧ v.prop ≠ 2 ∧ v.prop ≠ 3) ∧ C123 ph := by simp [C123]
+
 theorem C1.mono {ph ph' : Ph} (hv : ∀ v ∈ ph.viols, v ∈ ph'.viols) (h : C1 ph') : C1 ph := fun v hm => h v (hv v hm)
 theorem C3.mono {ph ph' : Ph} (hv : ∀ v ∈ ph.viols, v ∈ ph'.viols) (h : C3 ph') : C3 ph := fun v hm => h v (hv v hm)
 theorem C123.mono {ph ph' : Ph} (hv : ∀ v ∈ ph.viols, v ∈ ph'.viols) (h : C123 ph') : C123 ph := fun v hm => h v (hv v hm)
@@ -164,7 +169,7 @@ theorem RDp.inp {sh : Shape} {k : Nat} {ph : Ph} {c : Ctx β} {tr : List (Ev α 
     have hk := legal_subscribe hl
     by_cases hkk : k = k'
     · subst hkk
-      apply h.step _ (fun _ hm => hm) <;> simp [Ph.onIn, isGreetOut, isFinalOut, isDisposeIn, isDownOut, hk]
+      apply h.step (ph' := ph.onIn (.subscribe k)) _ (fun _ hm => hm) <;> simp [Ph.onIn, isGreetOut, isFinalOut, isDisposeIn, isDownOut, hk]
     · exact h.frame _ (fun _ hm => hm) (by simp [Ph.onIn, hkk]) (by simp [isGreetOut]) (by simp [isFinalOut])
         (by simp [isDisposeIn]) (by simp [isDownOut])
   | sinkUp k' u =>
@@ -175,14 +180,14 @@ theorem RDp.inp {sh : Shape} {k : Nat} {ph : Ph} {c : Ctx β} {tr : List (Ev α 
     | term =>
       by_cases hkk : k = k'
       · subst hkk
-        apply h.step _ (fun _ hm => hm) <;> simp [Ph.onIn, isGreetOut, isFinalOut, isDisposeIn, isDownOut, hk]
+        apply h.step (ph' := ph.onIn (.sinkUp k .term)) _ (fun _ hm => hm) <;> simp [Ph.onIn, isGreetOut, isFinalOut, isDisposeIn, isDownOut, hk]
       · have hkk' : ¬ k' = k := fun e => hkk e.symm
         exact h.frame _ (fun _ hm => hm) (by simp [Ph.onIn, hkk]) (by simp [isGreetOut]) (by simp [isFinalOut])
           (by simp [isDisposeIn, hkk']) (by simp [isDownOut])
     | err x =>
       by_cases hkk : k = k'
       · subst hkk
-        apply h.step _ (fun _ hm => hm) <;> simp [Ph.onIn, isGreetOut, isFinalOut, isDisposeIn, isDownOut, hk]
+        apply h.step (ph' := ph.onIn (.sinkUp k (.err x))) _ (fun _ hm => hm) <;> simp [Ph.onIn, isGreetOut, isFinalOut, isDisposeIn, isDownOut, hk]
       · have hkk' : ¬ k' = k := fun e => hkk e.symm
         exact h.frame _ (fun _ hm => hm) (by simp [Ph.onIn, hkk]) (by simp [isGreetOut]) (by simp [isFinalOut])
           (by simp [isDisposeIn, hkk']) (by simp [isDownOut])
@@ -231,7 +236,7 @@ theorem RDp.out {k : Nat} {ph : Ph} {tr : List (Ev α β)} (h : RDp k ph tr) (o 
       by_cases hp : ph.sinkPh k' = .subscribed
       · apply h.step _ (mem_onOut_viols _) <;> simp [Ph.onOut, isGreetOut, isFinalOut, isDisposeIn, isDownOut, hp]
       · apply h.step _ (mem_onOut_viols _) <;>
-          simp [Ph.onOut, isGreetOut, isFinalOut, isDisposeIn, isDownOut, hp, C1, C123, Viol.prop]
+          simp [Ph.onOut, isGreetOut, isFinalOut, isDisposeIn, isDownOut, hp, C1_flag, C123_flag, Viol.prop]
     | _ => simp [isGreetOut] at hg
   · by_cases hd : isDownOut (α := α) k (.out o) = true
     · -- delivery to sink `k`
@@ -247,7 +252,7 @@ theorem RDp.out {k : Nat} {ph : Ph} {tr : List (Ev α β)} (h : RDp k ph tr) (o 
         | idle | subscribed | doneBySrc | doneBySelf =>
           cases d <;>
             (apply h.step _ (mem_onOut_viols _) <;>
-              simp [Ph.onOut, isGreetOut, isFinalOut, isDisposeIn, isDownOut, hp, C1, C3, C123, Viol.prop])
+              simp [Ph.onOut, isGreetOut, isFinalOut, isDisposeIn, isDownOut, hp, C1_flag, C3_flag, C123_flag, Viol.prop])
       | _ => simp [isDownOut] at hd
     · -- anything else
       have hg' : isGreetOut (α := α) k (.out o) = false := by simpa using hg
@@ -330,6 +335,9 @@ theorem chronAt_append_lt (l : List (Ev α β)) {t : List (Ev α β)} {q : Nat} 
   unfold chronAt
   rw [List.reverse_append, List.getElem?_append_left (by simpa using h)]
 
+theorem chronAt_cons_lt (e : Ev α β) {t : List (Ev α β)} {q : Nat} (h : q < t.length) :
+    chronAt (e :: t) q = chronAt t q := chronAt_append_lt [e] h
+
 theorem chronAt_lt {tr : List (Ev α β)} {p : Nat} {e : Ev α β} (h : chronAt tr p = some e) : p < tr.length := by
   unfold chronAt at h
   have := (List.getElem?_eq_some_iff.1 h).1
@@ -347,10 +355,8 @@ theorem two_le_countP {tr : List (Ev α β)} {f : Ev α β → Bool} {p q : Nat}
     (hp : chronAt tr p = some a) (hq : chronAt tr q = some b) (ha : f a = true) (hb : f b = true) : 2 ≤ tr.countP f := by
   obtain ⟨l, t, rfl, hlen⟩ := chronAt_split hq
   rw [chronAt_append_lt l (t := b :: t) (by simp [hlen]; omega)] at hp
-  have hp' : chronAt t p = some a := by
-    have := chronAt_append_lt [b] (t := t) (q := p) (by omega)
-    simpa [this] using hp
-  have h1 : 0 < t.countP f := List.countP_pos_iff.2 ⟨a, chronAt_mem hp', ha⟩
+  rw [chronAt_cons_lt b (by omega)] at hp
+  have h1 : 0 < t.countP f := List.countP_pos_iff.2 ⟨a, chronAt_mem hp, ha⟩
   rw [List.countP_append, List.countP_cons, if_pos hb]
   omega
 
@@ -376,9 +382,8 @@ theorem greetFirstOnce_of_clean (hs : SReachR M R s) (hv : ∀ v ∈ s.g.ph.viol
     obtain ⟨q, hq, hqe⟩ := chronAt_of_mem he
     refine ⟨q, by omega, ?_⟩
     rw [htr, chronAt_append_lt l (t := _ :: t) (by simp; omega)]
-    have := chronAt_append_lt [Ev.out (Out.down k d)] (t := t) hq
-    rw [← isGreetOut_eq hg]
-    simpa [this] using hqe
+    rw [chronAt_cons_lt _ hq, ← isGreetOut_eq hg]
+    exact hqe
 
 /-- C02, readable — CORRECTED hypothesis: no violation of props 1, 2, 3 recorded ⇒ nothing is delivered to a sink after its
 terminal.  (With "no prop-2 violation" alone the statement is false: `terminalFinal_needs_C01`, `terminalFinal_needs_C03`.) -/
@@ -390,10 +395,8 @@ theorem terminalFinal_of_clean (hs : SReachR M R s) (hv : ∀ v ∈ s.g.ph.viols
   rw [htr] at hsuf
   have hno := hsuf.at (by simp [isDownOut])
   rw [htr, chronAt_append_lt l (t := _ :: t) (by simp; omega)] at hp
-  have hp' : chronAt t p = some (.out (.down k d)) := by
-    have := chronAt_append_lt [Ev.out (Out.down k d')] (t := t) (q := p) (by omega)
-    simpa [this] using hp
-  have := hno _ (chronAt_mem hp')
+  rw [chronAt_cons_lt _ (by omega)] at hp
+  have := hno _ (chronAt_mem hp)
   cases d <;> simp [isFinalOut, isFinal] at this hfin
 
 /-- C03, readable: no prop-3 violation recorded ⇒ no delivery to a sink begins after it disposed -/
@@ -405,10 +408,8 @@ theorem disposalRespected_of_clean (hs : SReachR M R s) (hv : ∀ v ∈ s.g.ph.v
   rw [htr] at hsuf
   have hno := hsuf.at (by simp [isDownOut])
   rw [htr, chronAt_append_lt l (t := _ :: t) (by simp; omega)] at hp
-  have hp' : chronAt t p = some (.inp (.sinkUp k u)) := by
-    have := chronAt_append_lt [Ev.out (Out.down k d)] (t := t) (q := p) (by omega)
-    simpa [this] using hp
-  have := hno _ (chronAt_mem hp')
+  rw [chronAt_cons_lt _ (by omega)] at hp
+  have := hno _ (chronAt_mem hp)
   cases u <;> simp [isDisposeIn] at this hu
 
 end Cb
